@@ -19,7 +19,7 @@ func (c12) NumCases(tier string) int {
 	if tier == "thorough" {
 		return 400_000
 	}
-	return 9_000
+	return 7_500
 }
 
 func (c12) Describe() CheckInfo {
@@ -35,7 +35,7 @@ func (c12) Describe() CheckInfo {
 		},
 		RealCode:       []string{"gopatch main()/mainCmd.Run, preview/printComments, patch.Parse/File.Apply, pkg/diff, x/tools/imports, internal/*"},
 		Stubs:          []string{"package os (simulated filesystem, streams, exit)", "path/filepath walk", "io/ioutil"},
-		RequiredProbes: []string{"agree-inplace-vs-print", "agree-diff-applied", "agree-api", "agree-verbose", "agree-refused-file", "description-on-stderr", "multi-file-print", "dry-fault-fired", "dry-kill", "dry-stdout-fail", "noncanonical-matched-file", "large-file", "agree-respelled-duplicate-arg", "agree-api-result-held"},
+		RequiredProbes: []string{"agree-inplace-vs-print", "agree-diff-applied", "agree-api", "agree-verbose", "agree-refused-file", "description-on-stderr", "multi-file-print", "dry-fault-fired", "dry-kill", "dry-stdout-fail", "noncanonical-matched-file", "large-file", "agree-respelled-duplicate-arg", "agree-api-result-held", "agree-hard-linked-targets"},
 	}
 }
 
@@ -92,6 +92,9 @@ func (c12) Gen(env *Env, seed uint64, tier string, i int) *Case {
 		}
 	}
 	AddDecoys(c, r)
+	if r.Chance(1, 5) {
+		AddHardlinkTarget(c, r)
+	}
 	c.Flags = Flags{SkipImport: r.Chance(1, 3), SkipGen: r.Chance(1, 4)}
 	if sub == "agree" && r.Chance(1, 5) {
 		// a file whose rewrite is refused: every mode must refuse it alike
@@ -163,6 +166,9 @@ func withFlags(c *Case, f Flags) world.Spec {
 func c12Agree(env *Env, c *Case) (vs []Violation) {
 	if c.Extra["respelled_duplicate"] == "1" {
 		env.Probe("agree-respelled-duplicate-arg")
+	}
+	if c.Extra["hardlink_target"] == "1" {
+		env.Probe("agree-hard-linked-targets")
 	}
 	add := func(oracle, sig, detail string) {
 		vs = append(vs, Violation{Oracle: oracle, Signature: "C12/" + oracle + "/" + sig, Detail: detail})
